@@ -96,14 +96,15 @@ class BranchingList:
     def false_case(self):
         """ Checks if case value is false
         """
-        if not self.state:
-            return False
-        # count number of true cases
-        branch = self._get_branch_id()
-        num_true = sum([self.cases[c].value==True for c in self.branches[branch].cases])
-        # only first `true` case is valid
-        case = self._get_case_id()
-        return num_true!=1 or self.cases[case].value == False
+        # nodes take effect only if the current case of every open branch is selected
+        for branch in self.state:
+            # count number of true cases
+            cases = self.branches[branch].cases
+            num_true = sum([self.cases[c].value==True for c in cases])
+            # only first `true` case is valid
+            if num_true!=1 or self.cases[cases[-1]].value == False:
+                return True
+        return False
         
     def solve_case(self, node):
         """ Manage condition nodes
